@@ -1,19 +1,19 @@
----- MODULE MC_C01_quick_d_deep_sd ----
+---- MODULE MC_C05_quick_b_3vars ----
 EXTENDS CircuitSys
 c_Dom == <<2, 2, 2>>
-c_KSet == {2}
+c_KSet == {1}
 c_MaxK == 8
 c_MaxL == 5
 c_MaxIn == 3
-c_InKindSeq == <<"emb">>
-c_InnerKinds == {"had", "kron", "mix", "sum"}
+c_InKindSeq == <<"poly">>
+c_InnerKinds == {"had", "sum"}
 c_MaxAr == 3
-c_FreeOrder == FALSE
+c_FreeOrder == TRUE
 c_MaxOuts == 1
 c_MaxBases == 1
-c_MaxOps == 0
-c_OpSet == {}
-c_Scheme == 6
+c_MaxOps == 1
+c_OpSet == {"differentiate"}
+c_Scheme == 2
 c_OnlySD == TRUE
 c_PolyDeg == 1
 c_DiffK == {1}
@@ -24,9 +24,9 @@ c_RunActs == {"eval", "update"}
 c_NVer == 2
 c_GradMod == 0
 c_QueryOn == FALSE
-c_J == 1
-c_EmitOps == {0}
-c_EmitMod == 6
+c_J == 2
+c_EmitOps == {1}
+c_EmitMod == 11
 c_EmitRes == 0
-c_EmitSmall == 3
+c_EmitSmall == 4
 ====
